@@ -244,7 +244,22 @@ def main():
     eng = Engine(pid, spec, tier, seed, sys.modules[__name__])
     if a.replay:
         sys.exit(eng.replay(a.replay))
-    rc = eng.run()
+    try:
+        rc = eng.run()
+    except Exception:
+        # the machinery itself broke on this tree (the harness crashed, produced unreadable output, timed out ...):
+        # the property is no longer shown to hold, so this is reported as a violation, not swallowed
+        import traceback
+        tb = traceback.format_exc()
+        p = eng.write_replay("engine-failure", "", extra={"note": "the check could not be completed on this tree", "traceback": tb[-4000:]})
+        print(tb[-1500:])
+        print("VIOLATION property=%s replay=%s no-failing-input-found" % (pid, p))
+        eng.violations = 1
+        try:
+            eng.write_evidence(time.time() - t0)
+        except Exception:
+            pass
+        sys.exit(1)
     eng.write_evidence(time.time() - t0)
     sys.exit(rc)
 
